@@ -32,6 +32,19 @@ Ltac gen_unfold :=
        vec2_x vec2_y vec3_x vec3_y vec3_z];
   cbn [bop uop cmp cast ilit ofbool tobool S IZ MZ OZ o_bop z_bop z_cmp z_uop].
 
+(* bring the dividend / divisor of every quot and rem that is ring-equal to the given canonical term into that form, so
+   that the proofs below do not depend on how the source associates or commutes its index expression *)
+Ltac canon_arg E0 :=
+  repeat match goal with
+  | |- context [Z.quot ?E ?D] => lazymatch E with E0 => fail | _ => idtac end; replace E with E0 by ring
+  | |- context [Z.rem ?E ?D] => lazymatch E with E0 => fail | _ => idtac end; replace E with E0 by ring
+  end.
+Ltac canon_div D0 :=
+  repeat match goal with
+  | |- context [Z.quot ?E ?D] => lazymatch D with D0 => fail | _ => idtac end; replace D with D0 by ring
+  | |- context [Z.rem ?E ?D] => lazymatch D with D0 => fail | _ => idtac end; replace D with D0 by ring
+  end.
+
 (* ------------------------------------------------------- pure arithmetic *)
 Lemma quot_rem_unique a b q r : 0 <= r < b -> a = b * q + r -> 0 <= q -> Z.quot a b = q /\ Z.rem a b = r.
 Proof.
@@ -73,6 +86,7 @@ Lemma reshape2_flatten2 d c : in2 d c ->
   multidim_index_sequence2_reshape__ul IZ (seq2 d) (multidim_index_sequence2_flatten__v2ul IZ (seq2 d) c) = c.
 Proof.
   destruct d as [dx dy], c as [x y]. unfold in2, seq2. gen_unfold. intros [Hx Hy].
+  canon_arg (x + dx * y).
   destruct (quot_rem_unique (x + dx * y) dx y x) as [Hq Hr]; try lia.
   now rewrite Hq, Hr.
 Qed.
@@ -97,9 +111,10 @@ Lemma reshape3_flatten3 d c : in3 d c ->
   multidim_index_sequence3_reshape__ul IZ (seq3 d) (multidim_index_sequence3_flatten__v3ul IZ (seq3 d) c) = c.
 Proof.
   destruct d as [dx dy dz], c as [x y z]. unfold in3, seq3. gen_unfold. intros (Hx & Hy & Hz).
-  set (i := x + dx * (y + dy * z)).
-  assert (Hq : Z.quot i (dx * dy) = z) by (apply (quot_rem_unique i (dx * dy) z (x + dx * y)); [nia | unfold i; ring | lia]).
-  rewrite Hq. replace (i - z * dx * dy) with (x + dx * y) by (unfold i; ring).
+  canon_div (dx * dy). canon_arg (x + dx * (y + dy * z)).
+  assert (Hq : Z.quot (x + dx * (y + dy * z)) (dx * dy) = z)
+    by (apply (quot_rem_unique (x + dx * (y + dy * z)) (dx * dy) z (x + dx * y)); [nia | ring | lia]).
+  rewrite !Hq. canon_arg (x + dx * y).
   destruct (quot_rem_unique (x + dx * y) dx y x) as [Hq2 Hr2]; try lia.
   now rewrite Hq2, Hr2.
 Qed.
@@ -134,9 +149,9 @@ Lemma coordsOf_longIndex d c : in3 d c ->
   array3D_coordsOf__ul_v3i IZ (array3D_longIndex__v3i_v3i IZ c d) d = c.
 Proof.
   destruct d as [dx dy dz], c as [x y z]. unfold in3. gen_unfold. intros (Hx & Hy & Hz).
-  set (i := x + dx * (y + dy * z)).
-  destruct (quot_rem_unique i dx (y + dy * z) x) as [Hq Hr]; [lia | unfold i; ring | nia |].
-  rewrite Hq, Hr.
+  canon_arg (x + dx * (y + dy * z)).
+  destruct (quot_rem_unique (x + dx * (y + dy * z)) dx (y + dy * z) x) as [Hq Hr]; [lia | ring | nia |].
+  rewrite !Hq, ?Hr.
   destruct (quot_rem_unique (y + dy * z) dy z y) as [Hq2 Hr2]; try lia.
   now rewrite Hq2, Hr2.
 Qed.
@@ -177,7 +192,7 @@ Ltac wrap_small :=
          | |- context [wrap U64 ?z] => no_wrap_in z; rewrite (wrap_u64_small z) by (timeout 3 nia)
          | |- context [wrap I32 ?z] => no_wrap_in z; rewrite (wrap_i32_small z) by (timeout 3 nia)
          end.
-Ltac wrap_done := wrap_small; lazymatch goal with |- context [wrap] => fail "a wrap remains" | _ => reflexivity end.
+Ltac wrap_done := once wrap_small; lazymatch goal with |- context [wrap] => fail "a wrap remains" | _ => reflexivity end.
 
 Ltac munfold := cbv [mseq2 mseq3 seq2 seq3]; cbv [toM2 toM3]; gen_unfold.
 
@@ -295,7 +310,7 @@ Ltac chk_step :=
   | |- context [chk I32 ?z] => no_chk_in z; rewrite (chk_i32 z) by (timeout 3 nia)
   | |- context [?y =? 0] => rewrite (proj2 (Z.eqb_neq y 0)) by (timeout 3 nia)
   end; cbv beta iota delta [o_bop z_bop].
-Ltac chk_done := repeat chk_step; lazymatch goal with |- context [chk] => fail "a check remains" | _ => reflexivity end.
+Ltac chk_done := once (repeat chk_step); lazymatch goal with |- context [chk] => fail "a check remains" | _ => reflexivity end.
 Ltac ounfold := cbv [oseq2 oseq3 seq2 seq3]; cbv [toO2 toO3]; gen_unfold.
 
 Lemma total2_checked (d : vec2 IZ) : 0 <= vec2_x d -> 0 <= vec2_y d -> total2 d < 2 ^ 64 ->
